@@ -38,6 +38,9 @@ import AutosarVerif.Properties.C08
 import AutosarVerif.Lemmas.Lexer
 import AutosarVerif.Lemmas.SerLex
 import AutosarVerif.Lemmas.SerLexReal
+import AutosarVerif.Lemmas.SerParseDoc
+import AutosarVerif.Lemmas.SerParseLoad
+import AutosarVerif.Lemmas.SerParseEx
 
 namespace AV.C01
 open AV.CData AV.Lex
@@ -113,5 +116,21 @@ theorem C01_every_set_comment_text_is_readable (c : Bytes) : Lex.commentOK (W.fi
 
 /-! non-vacuity: "<!--a-->" is one comment event with text "a" -/
 example : (lex [60, 33, 45, 45, 97, 45, 45, 62]).1 = [(1, .comment [97]), (1, .eof)] := by decide
+
+
+/-! ### added in the third session: statements proved in the lemma files, restated here by name
+(`type_of%` keeps the statement identical to the lemma; the signature is quoted in the comment) -/
+
+/-- **element level**: for every VALID tree (`ValidRoot`: exactly the checks the parser makes - names known in the version with the recorded types, choice conflicts, multiplicities, attributes and values that read back, SHORT-NAME present where required; no ordering constraint, the parser has none) the parser model, run on the xml declaration followed by the text the serializer model writes, returns the same tree (ids assigned in document order from `nid`), with no warning, in strict and in lenient mode
+`theorem runParser_serialized (sa : Option Bool) (h : Hdr) (k : Items) (bytes : Bytes) (nid nmAutosar ver : Nat) (strict : Bool) (hwf : wfItems V (.elem h k .nil) = true) (hser : serForest S V none 0 false (.elem h k .nil) = some bytes) (hvalid : ValidRoot S V nmAutosar ver h k) : ∃ st, runParser S V strict (xmlDecl sa ++ bytes) nid nmAutosar = (.ok ({ h with id` -/
+theorem C01_parser_rebuilds_serialized_document : type_of% @AV.SerParse.runParser_serialized := @AV.SerParse.runParser_serialized
+
+/-- the same through `load_buffer` into a model without files: tree, file entry, id counters
+`theorem opLoad_serialized (S : Spec) (V : Env) (nmAutosar ver : Nat) (w : World) (kx : Nat) (m : Model) (name : Bytes) (strict : Bool) (sa : Option Bool) (h : Hdr) (k : Items) (bytes : Bytes) (hm : w.models[kx]? = some m) (hfiles : m.files = []) (hwf : wfItems V (.elem h k .nil) = true) (hser : serForest S V none 0 false (.elem h k .nil) = some bytes) (hvalid : ValidRoot S V nmAutosar ver h k) : ∃ w' ans m', opLoad S V nmAutosar w kx name strict (xmlDecl sa ++ bytes) = (w', .ok ans) ∧ w'.models[kx]? = some m' ∧ m'.rootHdr = { h with id` -/
+theorem C01_load_of_serialized_file_rebuilds_the_tree : type_of% @AV.SerParse.opLoad_serialized := @AV.SerParse.opLoad_serialized
+
+/-- the induction behind it (all five content modes)
+`theorem content_ok (its : Items) : ∀ (hp : Hdr) (mixed prevText : Bool) (pi seen : List Nat) (ne : Bool) (p : Bytes) (pend : List Item) (st : LoopSt) (fuel : Nat) (b : Bool) (s : PState) (toks : List Event) (les rest : List (Nat × Event)) (sfin : LState) (lE : Nat), ValidC S V ver hp.ety.typ mixed its prevText pi seen ne → tokF S V none mixed its p = some toks → Pending S V ver hp.ety.typ prevText p pend → Run s.lx (les ++ (lE, .endElement (V.elemText hp.name)) :: rest) sfin → les.map (·.2) = toks → les.length < fuel → s.ver = ver → st.elemIdx = pi → st.comment = none → ((st.acc ++ pend).isEmpty = !ne) → (∀ nm, (st.acc ++ pend).any (isEl nm) = seen.contains nm) → V.elemOf (V.elemText hp.name) = some hp.name → (S.isNamedIn hp.ety.typ ver = true → st.snFound = true ∨ hasSN S its = true) → ∃ s', pLoop S V fuel hp st b s = (.ok (itemsOf (st.acc ++ pend ++ listOf (relabel (.elem hp.id) s.nextId its))), s') ∧ Run s'.lx rest sfin ∧ s'.nextId = s.nextId + cnt its ∧ s'.warnings = s.warnings ∧ s'.ver = s.ver ∧ s'.standalone = s.standalone` -/
+theorem C01_parser_content_induction : type_of% @AV.SerParse.content_ok := @AV.SerParse.content_ok
 
 end AV.C01
